@@ -1,6 +1,7 @@
 package main
 
 import (
+	"os"
 	"fmt"
 	"go/token"
 	"go/types"
@@ -642,7 +643,7 @@ func ruleFillPassThrough(p *Prog, r *Report) {
 			continue
 		}
 		key := rule + ":ast.(*" + tn + ").FillVariables"
-		if tn != "ListNode" {
+		{
 			if d, decided, good := fillByEvaluation(p, fn); decided {
 				if good {
 					r.ok(rule, key, p.Pos(fn.Pos()), d)
@@ -860,7 +861,21 @@ func fillByEvaluation(p *Prog, fn *ssa.Function) (detail string, decided, good b
 		in.MapKeys["p0.variables"] = []Val{strVal("x")}
 		in.InitBind[`p0.variables["x"]`] = int64Val(1)
 		in.MapKeys["p1"] = keys
+		if strings.Contains(FnName(fn), "ListNode") {
+			// a list's elements are item nodes: a leaf node at position 0, the
+			// placeholder of the variable at position 1
+			leaf, empty := p.namedType(modPath+"/pkg/ast", "IntNode"), p.namedType(modPath+"/pkg/ast", "emptyItemNode")
+			if leaf != nil && empty != nil {
+				c0 := Val{K: KPtr, S: "child0"}
+				e1 := Val{K: KAgg, S: "placeholder", Agg: map[string]cell{}}
+				in.PathBind["p0.values[0]"] = Val{K: KIface, T: types.NewPointer(leaf), Inner: &c0}
+				in.PathBind["p0.values[1]"] = Val{K: KIface, T: empty, Inner: &e1}
+			}
+		}
 		in.OnCall = func(call *ssa.Call, callee *ssa.Function, a []Val, fr *frame) {
+			if fr.fn != fn {
+				return
+			}
 			vi := variadicIndex(callee)
 			if !isFactory(callee) || vi < 0 || vi >= len(a) {
 				return
@@ -880,6 +895,9 @@ func fillByEvaluation(p *Prog, fn *ssa.Function) (detail string, decided, good b
 		return called, e0, e1, n, out, len(in.Stuck) > 0
 	}
 	called, _, e1, n, _, stuck := run([]Val{strVal("x")})
+	if os.Getenv("SC_DEBUG_FILL") != "" {
+		fmt.Fprintf(os.Stderr, "fill %s: called=%v n=%d e1=%s stuck=%v\n", FnName(fn), called, n, e1, stuck)
+	}
 	if stuck || !called || n != 2 {
 		return "", false, false
 	}
